@@ -1,4 +1,5 @@
 import SwcVerif.Props.C20
+import SwcVerif.Props.C20Gen
 #print axioms C20.consts_pinned
 #print axioms C20.save_puts_z_first
 #print axioms C20.axes_roundtrip
